@@ -9,21 +9,35 @@ impl DeclarationElsewhere {
         &self,
         tlds: &'a BTreeMap<String, ToplevelDefinition>,
     ) -> Result<&'a ASN1Type, GrammarError> {
-        match tlds.get(&self.identifier).ok_or_else(|| GrammarError::new(
-            &format!("Failed to resolve reference of ElsewhereDefined: {}", self.identifier),
-            super::GrammarErrorType::LinkerError
-        ))? {
-            ToplevelDefinition::Type(ToplevelTypeDefinition { ty: ASN1Type::ElsewhereDeclaredType(e), .. }) => e.root(tlds),
-            ToplevelDefinition::Type(ToplevelTypeDefinition { ty, .. }) => Ok(ty),
-            ToplevelDefinition::Class(_) => Err(GrammarError::todo()),
-            ToplevelDefinition::Object(_) => Err(GrammarError::todo()),
-            _ => Err(GrammarError::new(
-                &format!(
-                    "Unexpectedly found a value definition resolving reference of ElsewhereDefined: {}",
-                    self.identifier
-                ),
+        // follow the chain of type references; a chain that comes back to a name
+        // it has already visited (`A ::= B`, `B ::= A`) has no root
+        let mut identifier = self.identifier.clone();
+        let mut visited: Vec<String> = vec![];
+        loop {
+            if visited.contains(&identifier) {
+                return Err(GrammarError::new(
+                    &format!("Cyclic type reference resolving ElsewhereDefined: {identifier}"),
+                    super::GrammarErrorType::LinkerError,
+                ));
+            }
+            match tlds.get(&identifier).ok_or_else(|| GrammarError::new(
+                &format!("Failed to resolve reference of ElsewhereDefined: {identifier}"),
                 super::GrammarErrorType::LinkerError
-            ))
+            ))? {
+                ToplevelDefinition::Type(ToplevelTypeDefinition { ty: ASN1Type::ElsewhereDeclaredType(e), .. }) => {
+                    visited.push(identifier);
+                    identifier = e.identifier.clone();
+                }
+                ToplevelDefinition::Type(ToplevelTypeDefinition { ty, .. }) => return Ok(ty),
+                ToplevelDefinition::Class(_) => return Err(GrammarError::todo()),
+                ToplevelDefinition::Object(_) => return Err(GrammarError::todo()),
+                _ => return Err(GrammarError::new(
+                    &format!(
+                        "Unexpectedly found a value definition resolving reference of ElsewhereDefined: {identifier}"
+                    ),
+                    super::GrammarErrorType::LinkerError
+                ))
+            }
         }
     }
 }
